@@ -196,7 +196,12 @@ def catch_ (E : List Err) (r : RefDS) : RefDS where
   stream := match r.len with
     | .error e => .fail e
     | .ok _ => catchOuts E r.outs
-  kstream := .nil     -- characterised separately (C14 key iteration)
+  kstream := match r.keys with
+    | .error e => .fail e
+    | .ok ks => catchOuts E ((List.range ks.length).map (fun (j : Nat) => do
+        let k ← pyIndex ks (j : Int)
+        let v ← outAt r.outs (j : Int)
+        .ok (k, v)))
   keys := .error .notImplemented
   len := .error .typeError
 
@@ -264,7 +269,12 @@ def prefetch (workers : Nat) (threadBackend : Bool) (catchE : Option (List Err))
         | .ok _ => match catchE with
           | some E => catchOuts E r.outs
           | none => .ofOuts r.outs
-    kstream := .nil            -- characterised separately
+    kstream :=
+      if single then
+        match catchE with
+        | some E => (catch_ E r).kstream
+        | none => r.kstream
+      else .fail .notImplemented
     keys := .error .notImplemented
     len := match catchE with | some _ => .error .typeError | none => r.len }
 
